@@ -780,7 +780,10 @@ func (s *sce) judge(d *delivery) {
 		}
 		if len(neutrals) == 0 {
 			if accepted {
-				r.Probe("key_state_undetermined_accepted:" + d.keyNote)
+				r.Probe("key_state_undetermined_accepted")
+				if strings.Contains(d.keyNote, "cache_fresh+rotated") {
+					r.Probe("accepted_on_cached_key_after_rotation")
+				}
 			} else {
 				r.Probe(fmt.Sprintf("key_state_undetermined_refused:%d", d.code))
 			}
